@@ -32,6 +32,7 @@ import (
 	"github.com/cube2222/octosql/helpers/graph"
 	"github.com/cube2222/octosql/logical"
 	"github.com/cube2222/octosql/logs"
+	"github.com/cube2222/octosql/octosql"
 	"github.com/cube2222/octosql/optimizer"
 	"github.com/cube2222/octosql/outputs/batch"
 	"github.com/cube2222/octosql/outputs/eager"
@@ -277,13 +278,11 @@ octosql "SELECT * FROM plugins.plugins"`,
 		}
 		var physicalLimitExpression *physical.Expression
 		if outputOptions.Limit != nil {
-			physicalExpr, err := typecheckExpr(ctx, *outputOptions.Limit, env.WithRecordSchema(physicalPlan.Schema), logical.Environment{
+			// The limit is evaluated once, before any record exists, so it can't refer to the output columns. It must be an Int.
+			physicalExpr, err := typecheckExprOfType(ctx, *outputOptions.Limit, octosql.Int, env, logical.Environment{
 				CommonTableExpressions: map[string]logical.CommonTableExpression{},
 				TableValuedFunctions:   tableValuedFunctions,
-				UniqueVariableNames: &logical.VariableMapping{
-					Mapping: mapping,
-				},
-				UniqueNameGenerator: uniqueNameGenerator,
+				UniqueNameGenerator:    uniqueNameGenerator,
 			})
 			if err != nil {
 				return fmt.Errorf("couldn't typecheck limit expression with index: %w", err)
@@ -356,7 +355,7 @@ octosql "SELECT * FROM plugins.plugins"`,
 				orderByExpressions[i] = execExpr
 			}
 			if physicalLimitExpression != nil {
-				execExpr, err := physicalLimitExpression.Materialize(ctx, env.WithRecordSchema(physicalPlan.Schema))
+				execExpr, err := physicalLimitExpression.Materialize(ctx, env)
 				if err != nil {
 					return fmt.Errorf("couldn't materialize output limit expression with index: %w", err)
 				}
@@ -510,6 +509,22 @@ func typecheckExpr(ctx context.Context, expr logical.Expression, env physical.En
 		ctx,
 		env,
 		logicalEnv,
+	)
+	return physicalExpr, nil
+}
+
+func typecheckExprOfType(ctx context.Context, expr logical.Expression, expected octosql.Type, env physical.Environment, logicalEnv logical.Environment) (_ physical.Expression, outErr error) {
+	defer func() {
+		if r := recover(); r != nil {
+			outErr = fmt.Errorf("typecheck error: %s", r)
+		}
+	}()
+	physicalExpr := logical.TypecheckExpression(
+		ctx,
+		env,
+		logicalEnv,
+		expected,
+		expr,
 	)
 	return physicalExpr, nil
 }
